@@ -260,6 +260,9 @@ func ExecuteScenario(env *Env, sc *Scenario) (out *Outcome, err error) {
 		}
 		out.Violations = append(out.Violations, x.Viol...)
 		out.Records[v.Name] = x.Steps
+		if keep := os.Getenv("VERIF_KEEP_WORLDS"); keep != "" {
+			_ = CopyTree(vroot, filepath.Join(keep, sanitize(v.Name))) // debugging aid
+		}
 		results = append(results, result{genState(vroot, sc.Module, sc.Base), callSeq(x.Steps), x})
 	}
 
@@ -381,6 +384,21 @@ func executeUniverse(env *Env, sc *Scenario, mroot string) ([]Violation, error) 
 			return nil, err
 		}
 		run := v.Ops[0].Run
+		if strings.Contains(v.Name, "second-checkout") && sc.ExternalRoot == "" {
+			// the same module (same module path) was loaded before from another directory by this very process
+			other := filepath.Join(filepath.Dir(filepath.Dir(mroot)), "other-checkout", "m")
+			if err := os.MkdirAll(filepath.Dir(other), 0o755); err == nil {
+				_ = os.RemoveAll(other)
+				if err := CopyTree(mroot, other); err == nil {
+					if _, err := w.Do(&proto.RunReq{Root: other, Args: run.Args, Sched: run.Sched, Universe: true, NoEvents: true}, env.Timeout); err != nil {
+						x.Close()
+						return nil, infra("universe (first checkout): %v", err)
+					}
+					env.Stats.Add("probe/second-checkout-in-one-process", 1)
+				}
+				_ = os.RemoveAll(filepath.Dir(other))
+			}
+		}
 		resp, err := w.Do(&proto.RunReq{Root: mroot, Args: run.Args, Sched: run.Sched, Universe: true, UniAll: sc.ExternalRoot != "" || sc.UniAll, UniMethodsFirst: strings.Contains(v.Name, "methods-first"), NoEvents: true}, 4*env.Timeout)
 		x.Close()
 		if err != nil {
